@@ -17,6 +17,7 @@ package main
 
 import (
 	"context"
+	"encoding/json"
 	"fmt"
 	"sort"
 	"strings"
@@ -55,7 +56,8 @@ func attachStack(pg *pgsem.DB) *Stack {
 }
 
 type mEvent struct {
-	Kind   string // mk | hold | op
+	Kind   string // mk | hold | op | schema
+	Ver    string // schema: version inserted (straight through the store: no log, the write path is unaffected in audit mode)
 	L      string
 	Bucket string
 	Feat   Feat
@@ -70,6 +72,8 @@ func (e mEvent) sx() string {
 		return L("mk", Q(e.L), Q(e.Bucket), e.Feat.sx(), fmt.Sprint(e.Proc))
 	case "hold":
 		return L("hold", fmt.Sprint(e.Proc), Q(e.L))
+	case "schema":
+		return L("schema", Q(e.L), fmt.Sprint(e.Proc), Q(e.Ver))
 	}
 	return L("op", Q(e.L), fmt.Sprint(e.Proc), b01(e.Held), e.Op.sx())
 }
@@ -92,6 +96,7 @@ type mLedger struct {
 	Last         string   // last full observation (snapshot + raw tables + sequences)
 	LastSnap     Snap
 	Committed    int
+	Schemas      []string
 }
 
 type heldKey struct {
@@ -197,7 +202,7 @@ func (m *mRun) rawDump(l *mLedger) string {
 }
 
 // ---------------------------------------------------------------- projections shared by observer snapshots and kept-controller reads
-type mView struct{ Txs, Accs, Logs, Vols, Agg []string }
+type mView struct{ Txs, Accs, Logs, Vols, Agg, Schemas []string }
 
 func (v mView) diff(w mView) string { // rows of v that are not in w
 	var out []string
@@ -219,6 +224,7 @@ func (v mView) diff(w mView) string { // rows of v that are not in w
 	d("log", v.Logs, w.Logs)
 	d("volume", v.Vols, w.Vols)
 	d("aggregated", v.Agg, w.Agg)
+	d("schema", v.Schemas, w.Schemas)
 	if len(out) > 6 {
 		out = append(out[:6], fmt.Sprintf("... (%d rows)", len(out)))
 	}
@@ -277,11 +283,29 @@ func (m *mRun) viewVia(ctrl ledgercontroller.Controller) (v mView, ids []int64, 
 	for c, b := range agg {
 		v.Agg = append(v.Agg, c+"="+b.String())
 	}
+	if v.Schemas, err = m.schemasVia(ctrl); err != nil {
+		return v, nil, err
+	}
 	for _, s := range [][]string{v.Txs, v.Accs, v.Logs, v.Vols, v.Agg} {
 		sort.Strings(s)
 	}
 	sort.Slice(ids, func(i, j int) bool { return ids[i] < ids[j] })
 	return v, ids, nil
+}
+
+// schemasVia: ListSchemas through a controller: "version chart"
+func (m *mRun) schemasVia(ctrl ledgercontroller.Controller) ([]string, error) {
+	ss, err := listAll(m.ctx, ctrl.ListSchemas, common.InitialPaginatedQuery[any]{PageSize: 100000})
+	if err != nil {
+		return nil, err
+	}
+	var out []string
+	for _, x := range ss {
+		c, _ := json.Marshal(x.Chart)
+		out = append(out, x.Version+" "+string(c))
+	}
+	sort.Strings(out)
+	return out, nil
 }
 
 func viewOfSnap(s Snap) mView {
@@ -357,6 +381,24 @@ func (m *mRun) checkListingVsTables(l *mLedger, s Snap) {
 	cmp("volumes", vols, m.rawq(`select accounts_address, asset, input, output from `+b+`accounts_volumes where ledger = '`+esc+`'`))
 }
 
+func (m *mRun) checkSchemas(l *mLedger) {
+	var raw []string
+	for _, r := range m.rawq(`select version from "` + l.Bucket + `".schemas where ledger = '` + l.Name + `'`) {
+		raw = append(raw, r[0])
+	}
+	sort.Strings(raw)
+	var listed []string
+	for _, x := range l.Schemas {
+		listed = append(listed, strings.SplitN(x, " ", 2)[0])
+		if !strings.Contains(x, `"m`+l.Name+`"`) {
+			m.violation("[foreign-row]", fmt.Sprintf("ListSchemas on ledger %s returned a schema written for another ledger: %s", l.Name, x))
+		}
+	}
+	if strings.Join(raw, ";") != strings.Join(listed, ";") {
+		m.violation("[listing-vs-table]", fmt.Sprintf("ledger %s: schemas listed through the read API = {%s} but the rows tagged ledger=%s are {%s}", l.Name, strings.Join(listed, ";"), l.Name, strings.Join(raw, ";")))
+	}
+}
+
 func (m *mRun) checkMarkers(l *mLedger, s Snap) {
 	bad := func(what string, meta []KV) {
 		for _, kv := range meta {
@@ -390,8 +432,12 @@ func (m *mRun) observe(on string, what string) {
 			ctrl, err := m.procs[2].Sys.GetLedgerController(m.ctx, name)
 			must(err)
 			snap = m.procs[2].Snapshot(m.ctx, ctrl, name, l.Feat)
+			var err2 error
+			if l.Schemas, err2 = m.schemasVia(ctrl); err2 != nil {
+				m.violation("[schema-read-error]", fmt.Sprintf("ListSchemas on ledger %s fails: %v", name, err2))
+			}
 		})
-		full := snap.sx() + "\n" + m.rawDump(l)
+		full := snap.sx() + "\nschemas: " + strings.Join(l.Schemas, ";") + "\n" + m.rawDump(l)
 		if l.Last != "" && name != on && full != l.Last {
 			m.violation("[frame]", fmt.Sprintf("%s changed what is observable on ledger %s: %s", what, name, firstDiff(l.Last, full)))
 		}
@@ -401,6 +447,7 @@ func (m *mRun) observe(on string, what string) {
 			l.SnapSx[n-1] = snap.sx()
 		}
 		if changed && snap.Err == "" {
+			m.checkSchemas(l)
 			m.checkListingVsTables(l, snap)
 			m.checkMarkers(l, snap)
 		}
@@ -408,7 +455,8 @@ func (m *mRun) observe(on string, what string) {
 }
 
 // heldReads: what every kept controller lists now, against the observer's view of the same ledger
-func (m *mRun) heldReads() {
+func (m *mRun) heldReads() { m.heldReads2(true) }
+func (m *mRun) heldReads2(record bool) {
 	var keys []heldKey
 	for k := range m.held {
 		keys = append(keys, k)
@@ -429,6 +477,7 @@ func (m *mRun) heldReads() {
 		}
 		rows = append(rows, L(fmt.Sprint(k.Proc), Q(k.L), L(s...)))
 		want := viewOfSnap(l.LastSnap)
+		want.Schemas = l.Schemas
 		extra, missing := v.diff(want), want.diff(v)
 		if extra != "" || missing != "" {
 			m.stats["held_reads_polluted"]++
@@ -441,7 +490,9 @@ func (m *mRun) heldReads() {
 		}
 		m.stats["held_reads"]++
 	}
-	m.heldSx = append(m.heldSx, L(rows...))
+	if record {
+		m.heldSx = append(m.heldSx, L(rows...))
+	}
 }
 
 func withMarker(meta []KV, v string) []KV {
@@ -479,6 +530,21 @@ func (m *mRun) apply(e mEvent) (res OpResult) {
 		must(err)
 		m.held[heldKey{e.Proc, e.L}] = ctrl
 		m.opened(e.Proc, m.led[e.L].Bucket)
+	case "schema":
+		l := m.led[e.L]
+		store, _, err := m.procs[e.Proc].Driver.OpenLedger(m.ctx, e.L)
+		must(err)
+		m.opened(e.Proc, l.Bucket)
+		var chart ledger.ChartOfAccounts
+		must(json.Unmarshal([]byte(`{"m`+e.L+`": {}}`), &chart))
+		sc, err := ledger.NewSchema(e.Ver, ledger.SchemaData{Chart: chart})
+		must(err)
+		if err := store.InsertSchema(m.ctx, &sc); err != nil {
+			m.violation("[schema-insert-error]", fmt.Sprintf("inserting schema %s on ledger %s fails: %v", e.Ver, e.L, err))
+		}
+		m.stats["schemas_inserted"]++
+		m.observe(e.L, fmt.Sprintf("inserting schema %s on ledger %s", e.Ver, e.L))
+		m.heldReads2(false)
 	case "op":
 		l := m.led[e.L]
 		var ctrl ledgercontroller.Controller
@@ -627,6 +693,7 @@ func genMulti(r *Rng, m *mRun) {
 		plans = append(plans, plan{"lc", "_default", 3 + r.Intn(10)})
 	}
 	var cos []*mCo
+	nver := map[string]int{}
 	runnable := func() []*mCo {
 		var out []*mCo
 		for _, c := range cos {
@@ -647,6 +714,11 @@ func genMulti(r *Rng, m *mRun) {
 			if (p.name == "la" && r.Chance(85)) || (p.name != "la" && r.Chance(35)) {
 				m.apply(mEvent{Kind: "hold", Proc: q, L: p.name})
 			}
+		}
+		nver[p.name] = 0
+		if r.Chance(50) {
+			nver[p.name]++
+			m.apply(mEvent{Kind: "schema", L: p.name, Proc: r.Intn(2), Ver: fmt.Sprintf("v%d", nver[p.name])})
 		}
 		co := &mCo{name: p.name, req: make(chan Op), resp: make(chan OpResult), done: make(chan struct{})}
 		rr := r.Fork()
@@ -680,6 +752,11 @@ func genMulti(r *Rng, m *mRun) {
 				return
 			}
 			continue
+		}
+		if r.Chance(6) {
+			n := Pick(r, m.order)
+			nver[n]++
+			m.apply(mEvent{Kind: "schema", L: n, Proc: r.Intn(2), Ver: fmt.Sprintf("v%d", nver[n])})
 		}
 		co := Pick(r, rs)
 		o, ok := co.next()
@@ -721,6 +798,8 @@ func parseMultiCase(line string) []mEvent {
 			evs = append(evs, mEvent{Kind: "mk", L: e.List[1].Atom, Bucket: e.List[2].Atom, Feat: Feat{b(1), b(2), b(3), b(4), b(5)}, Proc: int(atoi(e.List[4].Atom))})
 		case "hold":
 			evs = append(evs, mEvent{Kind: "hold", Proc: int(atoi(e.List[1].Atom)), L: e.List[2].Atom})
+		case "schema":
+			evs = append(evs, mEvent{Kind: "schema", L: e.List[1].Atom, Proc: int(atoi(e.List[2].Atom)), Ver: e.List[3].Atom})
 		case "op":
 			evs = append(evs, mEvent{Kind: "op", L: e.List[1].Atom, Proc: int(atoi(e.List[2].Atom)), Held: e.List[3].Atom == "1"})
 			opSx = append(opSx, sxText(e.List[4]))
